@@ -18,6 +18,7 @@ From Cedar Require Export ExtParse.
 From Cedar Require Export Level.
 From Cedar Require Export ManifestRun.
 From Cedar Require Export EntJsonRun.
+From Cedar Require Export FfiRun.
 
 Definition dispatchers : list (string -> list sexp -> option sexp) :=
   [ run_core
@@ -36,6 +37,7 @@ Definition dispatchers : list (string -> list sexp -> option sexp) :=
   ; run_level
   ; run_manifest
   ; run_entjson
+  ; run_ffi
   ].
 
 Fixpoint dispatch (ds : list (string -> list sexp -> option sexp)) (cmd : string) (args : list sexp) : sexp :=
